@@ -1,6 +1,7 @@
 import TemplVerif.Drive.Common
 import TemplVerif.Drive.C17
 import TemplVerif.Drive.C04
+import TemplVerif.Drive.C01
 import Std.Data.HashMap
 open TemplVerif TemplVerif.Drive
 
@@ -8,6 +9,7 @@ def dispatch (ws : List String) : Verdict :=
   match ws with
   | "C17" :: rest => C17.handle rest
   | "C04" :: rest => C04.handle rest
+  | "C01" :: rest => C01.handle rest
   | _ => .badOp
 
 structure Stats where
